@@ -4,8 +4,9 @@ itself), and writes seeded/MATRIX.json + seeded/MATRIX.md.  usage: seed_matrix.p
 import json, os, subprocess, sys, time, shutil
 VERIF = os.environ.get("VERIF_DIR", "/verif")   # a copy of /verif may be used so that /verif itself stays usable meanwhile
 WT = os.environ.get("VERIF_WT", "/tmp/seedwt")
+SD = os.environ.get("VERIF_SEEDDIR", "seeded")   # "harmless" = the behaviour-preserving rewrites (every V there is a false alarm)
 CHECKS = ["C%02d" % i for i in range(1, 20)]
-seeds = sys.argv[1:] or sorted(d for d in os.listdir(VERIF + "/seeded") if os.path.isfile(VERIF + "/seeded/%s/patch.diff" % d))
+seeds = sys.argv[1:] or sorted(d for d in os.listdir(VERIF + "/" + SD) if os.path.isfile(VERIF + "/" + SD + "/%s/patch.diff" % d))
 subprocess.run(["git", "-C", "/repo", "worktree", "remove", "--force", WT], stderr=subprocess.DEVNULL)
 subprocess.run(["git", "-C", "/repo", "worktree", "add", "-q", "--detach", WT, "HEAD"], check=True)
 env = dict(os.environ, VERIF_REPO=WT)
@@ -19,7 +20,7 @@ try:
     res["(unchanged)"] = base
     print("unchanged:", base, flush=True)
     for s in seeds:
-        a = subprocess.run(["git", "-C", WT, "apply", VERIF + "/seeded/%s/patch.diff" % s])
+        a = subprocess.run(["git", "-C", WT, "apply", VERIF + "/" + SD + "/%s/patch.diff" % s])
         if a.returncode != 0:
             res[s] = {"error": "patch does not apply"}
             continue
@@ -35,19 +36,19 @@ try:
         subprocess.run(["git", "-C", WT, "checkout", "--", "."])
         res[s] = row
         print(s, {k: v for k, v in row.items() if v != "-"}, "%.0fs" % (time.time() - t), flush=True)
-        json.dump(res, open(VERIF + "/seeded/MATRIX.json", "w"), indent=1)
+        json.dump(res, open(VERIF + "/" + SD + "/MATRIX.json", "w"), indent=1)
 finally:
     subprocess.run(["git", "-C", "/repo", "worktree", "remove", "--force", WT], stderr=subprocess.DEVNULL)
     # restore the harness module's replace directive
     subprocess.run(["git", "-C", VERIF, "checkout", "--", "harness/go.mod"], stderr=subprocess.DEVNULL)
-json.dump(res, open(VERIF + "/seeded/MATRIX.json", "w"), indent=1)
-with open(VERIF + "/seeded/MATRIX.md", "w") as f:
+json.dump(res, open(VERIF + "/" + SD + "/MATRIX.json", "w"), indent=1)
+with open(VERIF + "/" + SD + "/MATRIX.md", "w") as f:
     f.write("# Seeded changes x quick checks\n\nV = VIOLATION with a concrete replay, n = VIOLATION … no-failing-input-found (broken proof/correspondence only), - = check passes.\n\n")
     f.write("| seed | breaks | " + " | ".join(c[1:] for c in CHECKS) + " |\n|---|---|" + "---|" * len(CHECKS) + "\n")
     for s in ["(unchanged)"] + seeds:
         row = res.get(s, {})
         try:
-            br = json.load(open(VERIF + "/seeded/%s/meta.json" % s)).get("breaks", "")
+            br = json.load(open(VERIF + "/" + SD + "/%s/meta.json" % s)).get("breaks", "")
         except Exception:
             br = ""
         f.write("| %s | %s | " % (s, br) + " | ".join({"VIOLATION": "V", "no-input": "n", "-": "-", 0: "-"}.get(row.get(c), str(row.get(c))) for c in CHECKS) + " |\n")
